@@ -135,10 +135,12 @@ def execute(scn, keep_log=False, hook=None):
     last_nonempty = {s: None for s in w.stacks}
     ever_rcv = {s: False for s in w.stacks}
     polling = {'on': True}
+    states = set()
 
     def poll():
         if not polling['on']:
             return
+        states.add(common.abstract_state(w))
         for n, s in w.stacks.items():
             t = s.tables()
             if t['rcv'] or t['snd']:
@@ -338,7 +340,7 @@ def execute(scn, keep_log=False, hook=None):
             viol += common.idle_violations(w, 'after follow-up: ')
             if not viol:
                 viol += common.thread_violations(w)
-    res = {'violations': viol, 'stats': stats, 'nontrivial': fired > 0, 'digest': sim.digest(), 'sim_s': (sim.now - t0) / 1e9,
+    res = {'violations': viol, 'stats': stats, 'nontrivial': fired > 0, 'digest': sim.digest(), 'sim_s': (sim.now - t0) / 1e9, 'states': states,
            'summary': '%s %s len=%d faults=%s frames=%d' % (scn['stacks'][0]['dll'], mode, scn['len'], scn['faults'], first_frames)}
     if keep_log:
         res['log'] = sim.logbuf
